@@ -215,7 +215,7 @@ PROPERTIES = {
         "rule": ("declared gate chains [g0..gk], k = 1..20 hops (a twelfth: 17..50 hops, mostly without channels, so that more than 16 hops are traversed within one event), gates on one module / a line of modules / random modules, named gates or clusters (a third of the cases creates the cluster members one by one with create_raw_gate: in descending order, starting in the middle, or with a foreign gate between the first and second member), channels "
                  "(bitrate, latency, a quarter of them with a small jitter: the arrival must then lie in [sum, sum + jitters]) on random hops; built by connect calls in EVERY permutation for k <= 5 (every orientation vector for k <= 4) "
                  "and random permutations / orientations above, with repeated calls mixed in; every 200 cases a hop is connected while the simulation runs, from the channel object of a hop that is transmitting, and three well separated messages over it must each arrive exactly once after transmission time + latency; 1..4 uncontended messages per chain in both directions with send "
-                 "and send_in, a fifth of them sent by a third module through a reference to the end gate (which, in a third of the cases, shuts itself down in the event of its last send). Oracle = the declared chain: kind of every gate, path_iter from both ends (exact mirror images), path_end, channel(), symmetry "
+                 "and send_in (on chains without jitter a third of them with a second message of the same size sent right behind in the same handler: it is queued behind the first on every hop with a transmission time and must arrive exactly once, at the far end, at the time a tandem of FIFO queues gives), a fifth of them sent by a third module through a reference to the end gate (which, in a third of the cases, shuts itself down in the event of its last send). Oracle = the declared chain: kind of every gate, path_iter from both ends (exact mirror images), path_end, channel(), symmetry "
                  "after each connect, idempotence of repeated connects, rejection of a third peer; each message handled exactly once, by the owner of the far "
                  "end, at send time + sum of per-hop (latency + size*8/bitrate), with sender id, receiver id and last gate in the header. Non-trivial = chain "
                  "with >= 2 hops that checked clean; distinct = hash of the case."),
@@ -229,17 +229,17 @@ PROPERTIES = {
                       "enumerated_connect_orders": 1000, "chains_with_channels": 30000, "chains_with_reverse_sends": 30000, "max_hops": 45,
                       "chains_with_more_than_16_consecutive_hops_without_channel": 1000,
                       "sends_by_a_third_module_through_a_gate_reference": 10000,
-                      "chains_over_clusters_created_member_by_member_out_of_order": 3000, "hops_connected_at_run_time_from_a_busy_channel": 150},
+                      "chains_over_clusters_created_member_by_member_out_of_order": 3000, "hops_connected_at_run_time_from_a_busy_channel": 150, "messages_sent_right_behind_another_and_queued_on_the_way": 8000},
             "thorough": {"deliveries_checked": 2000000, "chain_walks_checked": 2000000, "repeated_connect_calls": 400000, "third_peer_rejections": 1000000,
                          "enumerated_connect_orders": 1000, "max_hops": 20,
-                         "chains_over_clusters_created_member_by_member_out_of_order": 60000, "hops_connected_at_run_time_from_a_busy_channel": 3000},
+                         "chains_over_clusters_created_member_by_member_out_of_order": 60000, "hops_connected_at_run_time_from_a_busy_channel": 3000, "messages_sent_right_behind_another_and_queued_on_the_way": 160000},
         },
     },
     "C19": {
         "level": "exploration",
         "rule": ("declared module graphs: 1..12 modules (some nested), trees / stars / rings / cliques / random multigraphs with self loops through two gates of "
                  "one module, multi edges, disconnected parts, unconnected gates, chains through 0..15 transit gates (16 hops = the documented limit); for each: the "
-                 "global view, the view spanned from EVERY module, a node-filtered and an edge-filtered view, dijkstra from EVERY source. Oracle = reference digraph "
+                 "global view, the view spanned from EVERY module, three views over subsets of the modules (Topology::from_modules: exactly the listed modules and the edges whose two ends are both listed), a node-filtered and an edge-filtered view, dijkstra from EVERY source. Oracle = reference digraph "
                  "from the declaration (one edge per chain endpoint, labelled with the two endpoint gates) + BFS: node multiset, edge multiset (src, dst, start "
                  "gate, end gate), gate owners match edge ends, edges_for (by path and by node handle: count and start node), connected / bidirectional by definition, filter results, dijkstra keys = reachable "
                  "set and 1 + dist(first hop, v) == dist(src, v). Non-trivial = graph with >= 3 modules and >= 2 chains; distinct = hash of the case."),
@@ -249,16 +249,16 @@ PROPERTIES = {
         ],
         "floor": {
             "quick": {"spanned_views_checked": 200000, "dijkstra_targets_checked": 1000000, "filtered_views_checked": 50000, "edges_compared": 2000000,
-                      "graphs_with_self_loops": 5000, "graphs_with_16_hop_chains": 5000},
+                      "graphs_with_self_loops": 5000, "graphs_with_16_hop_chains": 5000, "subset_views_checked": 50000},
             "thorough": {"spanned_views_checked": 4000000, "dijkstra_targets_checked": 20000000, "filtered_views_checked": 1000000,
-                         "graphs_with_self_loops": 100000, "graphs_with_16_hop_chains": 100000},
+                         "graphs_with_self_loops": 100000, "graphs_with_16_hop_chains": 100000, "subset_views_checked": 1000000},
         },
     },
     "C05": {
         "level": "exploration",
         "rule": ("1..4 async modules x 1..8 tasks x up to 30 steps of generated timer scripts: sleep, sleep_until (also in the past), timeout over "
                  "{sleep, yield_now, pending, far-future sleep}, biased select! of two sleeps (one possibly far future), poll-once-then-drop, pinned sleep "
-                 "with reset (before its deadline, and after the deadline was reached while the task waited for another timer), interval sections with Burst / Delay / Skip and late ticks (a third of them created with interval_at with the first tick due 50 / 10 ms ago, now, or in 10 / 100 ms; Interval::reset between ticks), recv from a channel fed at generated instants; a third of the scripts goes through the other entry points (sleep_until(now + d), timeout_at, interval_at(now, p)) and the accessors deadline() / is_elapsed() / period() / missed_tick_behavior() must agree with what was asked for; half of the cases add up to 6 unrelated self messages per module, three quarters of them arriving exactly at a timer deadline of that module and half of them swallowed by a processing element (the handler never runs in that event) - they must not move any completion; durations from a small "
+                 "with reset (before its deadline, and after the deadline was reached while the task waited for another timer), interval sections with Burst / Delay / Skip and late ticks (a third of them created with interval_at with the first tick due 50 / 10 ms ago, now, or in 10 / 100 ms; Interval::reset between ticks and, for a third of the interval_at sections, before the first tick - which may be more than one period away), two sleeps of one task with the same deadline of which the first registered is dropped and the second awaited, recv from a channel fed at generated instants; a third of the scripts goes through the other entry points (sleep_until(now + d), timeout_at, interval_at(now, p)) and the accessors deadline() / is_elapsed() / period() / missed_tick_behavior() must agree with what was asked for; half of the cases add up to 6 unrelated self messages per module, three quarters of them arriving exactly at a timer deadline of that module and half of them swallowed by a processing element (the handler never runs in that event) - they must not move any completion; durations from a small "
                  "set so that deadlines collide across tasks and cancelled timers leave empty slots in front of live ones. Every step logs (module, task, "
                  "step, SimTime::now(), outcome); oracle = reference interpreter in virtual time: completion time equal (never earlier, never later), outcome "
                  "equal, every step completes, run() Ok, run does not end before the last deadline; hook H5: after every module event a waiting timer has a "
@@ -276,10 +276,10 @@ PROPERTIES = {
         "floor": {
             "quick": {"timer_steps_checked": 2000000, "module_events_with_empty_slots_in_front_of_live_timers": 100000, "steps_timeout": 100000,
                       "steps_select": 100000, "steps_reset": 50000, "steps_poll_then_drop": 50000, "steps_interval_tick": 300000, "steps_recv": 100000,
-                      "steps_interval_at": 40000, "steps_interval_reset": 60000, "steps_through_sleep_until_timeout_at_interval_at": 500000,
+                      "steps_interval_at": 40000, "steps_interval_reset": 60000, "steps_twin_timers_first_dropped": 20000, "steps_through_sleep_until_timeout_at_interval_at": 500000,
                       "unrelated_messages_arriving_at_a_timer_deadline": 30000, "unrelated_messages_swallowed_by_a_processing_element": 15000},
             "thorough": {"timer_steps_checked": 40000000, "module_events_with_empty_slots_in_front_of_live_timers": 2000000, "miri_timer_steps_checked": 200,
-                         "steps_interval_at": 800000, "steps_interval_reset": 1200000, "steps_through_sleep_until_timeout_at_interval_at": 10000000,
+                         "steps_interval_at": 800000, "steps_interval_reset": 1200000, "steps_twin_timers_first_dropped": 400000, "steps_through_sleep_until_timeout_at_interval_at": 10000000,
                          "unrelated_messages_arriving_at_a_timer_deadline": 600000, "unrelated_messages_swallowed_by_a_processing_element": 300000},
         },
     },
@@ -449,7 +449,7 @@ PROPERTIES = {
                  "des::runtime::random, choose the out gate and an extra send_in delay from it; start delays drawn with des::runtime::sample; tasks with "
                  "unbiased tokio::select! over three ready futures, select over interval.tick vs a long sleep, random sleeps; a third of the modules requests "
                  "shutdown-and-restart (the restart rebuilds and reseeds the module's tokio runtime), a third emits a message from at_sim_end (never dispatched; "
-                 "it must not reach a later simulation), a third runs 2..8 tasks that sleep to common deadlines and draw a random value when they wake; in half of the models two fifths of the message bodies are std HashMap<String,u32> / HashSet<String> tables of 17..80 entries with keys of differing length (per-instance random iteration order; the body size enters the message length and the transmission time over the 10 Mbit/s links, the length is part of the trace); one model in 150 runs a task that yields 300000..500000 times within the first instant, its progress is part of the trace at every later event of its module (how far it got may depend on virtual time only, not on how long the executor needed); the driver draws through Runtime::random / rng_sample and reads the clock between build and run. For each (model, seed): executed twice back to back, once "
+                 "it must not reach a later simulation), a third runs 2..8 tasks that sleep to common deadlines and draw a random value when they wake; in half of the models two fifths of the message bodies are std HashMap<String,u32> / HashSet<String> tables of 17..80 entries with keys of differing length (per-instance random iteration order; the body size enters the message length and the transmission time over the 10 Mbit/s links, the length is part of the trace); one model in 150 runs a task that yields 300000..500000 times within the first instant, its progress is part of the trace at every later event of its module (how far it got may depend on virtual time only, not on how long the executor needed); half of the models chain further builder options behind Builder::seeded (cqueue_options with the default or other values, start_time + max_time), which must not touch the seeded generator; the driver draws through Runtime::random / rng_sample and reads the clock between build and run. For each (model, seed): executed twice back to back, once "
                  "more after an unrelated simulation of another shape and seed, and (every fourth model) in a separate child process started with a random junk "
                  "allocation. The trace = every delivery (time, module path, kind, id, content, source, value drawn), timer completion, task wake-up, select "
                  "branch, plus final time / event count / remaining / result; all executions must be byte-identical. Non-trivial = model whose trace "
@@ -462,10 +462,11 @@ PROPERTIES = {
             "quick": {"executions_compared": 10000, "separate_process_executions_compared": 800, "select_choices_observed": 80000,
                       "random_draws_observed": 300000, "restarts_observed": 4000, "runs_with_channel_jitter": 2000,
                       "models_whose_history_changes_with_the_seed": 1400, "hashed_collection_bodies_delivered": 40000,
-                      "models_with_a_task_of_over_300000_polls_in_one_instant": 15},
+                      "models_with_a_task_of_over_300000_polls_in_one_instant": 15, "models_with_builder_options_chained_after_seeded": 1000},
             "thorough": {"executions_compared": 200000, "separate_process_executions_compared": 16000, "select_choices_observed": 1600000,
                          "restarts_observed": 80000, "models_whose_history_changes_with_the_seed": 28000,
-                         "hashed_collection_bodies_delivered": 800000, "models_with_a_task_of_over_300000_polls_in_one_instant": 300},
+                         "hashed_collection_bodies_delivered": 800000, "models_with_a_task_of_over_300000_polls_in_one_instant": 300,
+                         "models_with_builder_options_chained_after_seeded": 20000},
         },
     },
     "C16": {
